@@ -48,6 +48,11 @@ theorem HQ.ioRead {w w' : World} {n : Nat} {r : ReadRes} (heq : w.ioRead n = (w'
 
 theorem HQ.hd (w : World) (h : HQ H w) : HQ H w.handleDisconnect := HQ.step hc h (Prim.handleDisconnect _) rfl
 
+theorem HQ.fs (w : World) (ctx : StepCtx) (st : Outbound.Step) (h : HQ H w) : HQ H (w.failStep ctx st) := by
+  rcases failStep_cases w ctx st with e | e <;> rw [e]
+  · exact h
+  · exact HQ.hd hc _ h
+
 theorem HQ.df (w : World) (ctx : StepCtx) (h : HQ H w) : HQ H (w.discFail ctx) := by
   rcases discFail_cases w ctx with ⟨e, _⟩ | ⟨e, _⟩ <;> rw [e]
   · exact h
@@ -174,7 +179,7 @@ theorem hstep_performStep (fuel : Nat) (ih : HMachine H fuel) :
   obtain ⟨_, _, i3, i4, i5, _⟩ := ih
   simp only [performStep]
   split
-  · exact (HQ.df hc _ _ h).eq rfl rfl
+  · exact (HQ.fs hc _ _ _ h).eq rfl rfl
   · exact i5 _ _ _ h
   · split
     · exact (HQ.df hc _ _ h).eq rfl rfl
